@@ -30,6 +30,10 @@ impl Cost {
 #[derive(Clone, Copy, Debug, PartialEq)]
 pub enum How {
     Ops,
+    /// `Vm::eval_ops`: execution followed by the boolean extraction
+    EvalOps,
+    /// `Vm::exec_ops` itself (not the guarded operation access)
+    ExecOps,
     BytecodeOwned,
     BytecodeBorrowed,
 }
@@ -45,6 +49,8 @@ pub struct RunCfg {
     pub cost: Cost,
     pub limit: u64,
     pub how: How,
+    /// A Compute whose breadth exceeds this is not started (the run is reported infeasible).
+    pub max_breadth: i64,
 }
 
 impl RunCfg {
@@ -59,6 +65,7 @@ impl RunCfg {
             cost: Cost::uniform(1),
             limit: u64::MAX,
             how: How::Ops,
+            max_breadth: 64,
         }
     }
 }
@@ -92,9 +99,33 @@ pub enum Outcome {
     Err(usize, String),
     /// the code under test panicked
     Panic(String),
+    /// the harness refused to start a Compute of excessive breadth
+    Infeasible,
+}
+
+/// Operation access that refuses to hand out a `Compute` whose breadth (the word on top of the
+/// stack of the VM about to execute it, as last reported by the observer on this thread) exceeds
+/// the cap: a Compute over 2^63 indices is not a bounded computation (finding F9).
+#[derive(Clone)]
+struct GuardedOps {
+    ops: Arc<Vec<Op>>,
+    cap: i64,
+}
+impl essential_vm::OpAccess for GuardedOps {
+    type Op = Op;
+    type Error = essential_asm::FromBytesError;
+    fn op_access(&self, index: usize) -> Option<Result<Op, Self::Error>> {
+        let op = *self.ops.get(index)?;
+        if ops::name(&op) == "COM" && obs::last_top() > self.cap {
+            return Some(Err(essential_asm::FromBytesError::NotEnoughBytes(essential_asm::NotEnoughBytesError)));
+        }
+        Some(Ok(op))
+    }
 }
 
 pub struct RunOut {
+    /// result of the boolean extraction when run through eval: "t", "f" or "inv"
+    pub eval: Option<&'static str>,
     pub outcome: Outcome,
     pub fin: Snap,
     /// (seq, vm id, event)
@@ -110,6 +141,13 @@ fn classify<E: std::fmt::Debug>(e: &OpError<E>) -> String {
 
 /// Execute on the real VM with the observer recording every op of every VM.
 pub fn run_traced(cfg: &RunCfg) -> RunOut {
+    if cfg.how != How::Ops {
+        // learn feasibility from a guarded run first
+        let pre = run_traced(&RunCfg { how: How::Ops, ..cfg.clone() });
+        if pre.outcome == Outcome::Infeasible {
+            return pre;
+        }
+    }
     let _g = RUN_LOCK.lock().unwrap_or_else(|e| e.into_inner());
     let rec = obs::recorder();
     rec.take();
@@ -121,8 +159,24 @@ pub fn run_traced(cfg: &RunCfg) -> RunOut {
     let cost = cfg.cost.clone();
     let costf = move |op: &Op| cost.of(op);
     let limit = GasLimit { per_yield: GasLimit::DEFAULT_PER_YIELD, total: cfg.limit };
+    let mut eval: Option<&'static str> = None;
     let res = std::panic::catch_unwind(std::panic::AssertUnwindSafe(|| match cfg.how {
-        How::Ops => vm.exec_ops(&cfg.prog, access, &state, &costf, limit),
+        How::ExecOps => vm.exec_ops(&cfg.prog, access, &state, &costf, limit),
+        How::EvalOps => match vm.eval_ops(&cfg.prog, access, &state, &costf, limit) {
+            Ok(b) => {
+                eval = Some(if b { "t" } else { "f" });
+                Ok(0)
+            }
+            Err(essential_vm::error::EvalError::InvalidEvaluation(_)) => {
+                eval = Some("inv");
+                Ok(0)
+            }
+            Err(essential_vm::error::EvalError::Exec(e)) => Err(e),
+        },
+        How::Ops => {
+            let oa = GuardedOps { ops: Arc::new(cfg.prog.clone()), cap: cfg.max_breadth };
+            vm.exec(access, &state, oa, &costf, limit)
+        }
         How::BytecodeOwned => {
             let mapped: BytecodeMapped<Vec<u8>> = cfg.prog.iter().copied().collect();
             vm.exec_bytecode(&mapped, access, &state, &costf, limit)
@@ -136,9 +190,19 @@ pub fn run_traced(cfg: &RunCfg) -> RunOut {
     rec.enabled.store(false, Ordering::SeqCst);
     let evs = rec.take();
     let outcome = match res {
+        Ok(Ok(_)) if cfg.how == How::EvalOps => {
+            // eval does not return the gas: take it from the top-level VM's exit event
+            let top = evs.iter().map(|e| e.1).min().unwrap_or(0);
+            let g = evs.iter().rev().find_map(|e| match &e.2 {
+                Ev::Exit { gas, .. } if e.1 == top => Some(*gas),
+                _ => None,
+            });
+            Outcome::Ok(g.unwrap_or(0))
+        }
         Ok(Ok(g)) => Outcome::Ok(g),
         Ok(Err(e)) => match &e.1 {
             OpError::OutOfGas(_) => Outcome::Oog(e.0),
+            OpError::FromBytes(_) => Outcome::Infeasible,
             other => Outcome::Err(e.0, classify(other)),
         },
         Err(p) => {
@@ -150,7 +214,7 @@ pub fn run_traced(cfg: &RunCfg) -> RunOut {
             Outcome::Panic(msg)
         }
     };
-    RunOut { outcome, fin: obs::snap(&vm), evs }
+    RunOut { eval, outcome, fin: obs::snap(&vm), evs }
 }
 
 // ---------------------------------------------------------------------------------------------
@@ -293,7 +357,12 @@ fn proj_fields(s: &Snap, force_full: bool, out: &mut Vec<(&'static str, J)>) {
     } else {
         out.push(("mtop", jw(&s.mem[s.mem.len() - WINDOW..])));
     }
-    out.push(("rep", rep_json(&s.rep)));
+    out.push(("rl", ji(s.rep.len())));
+    if force_full || s.rep.len() <= 16 {
+        out.push(("rep", rep_json(&s.rep)));
+    } else {
+        out.push(("rtop", rep_json(&s.rep[s.rep.len() - 2..])));
+    }
     out.push(("halt", J::B(s.halt)));
 }
 
@@ -510,6 +579,14 @@ pub fn emit_run(cfg: &RunCfg, out: &RunOut, label: &str) -> Emitted {
                 proj_fields(&out.fin, out.fin.st.len() + out.fin.mem.len() <= 1024 || steps > 200, &mut f);
                 f.push(("pm", jww(&out.fin.pm)));
                 events.push(J::O(f));
+                if let Some(r) = out.eval {
+                    events.push(J::O(vec![("e", js("eval")), ("r", js(r))]));
+                }
+            }
+            Outcome::Oog(pc) if top.ops.last().map(|o| !o.5 && o.1 == *pc).unwrap_or(false) => {
+                // the failing op itself reported out-of-gas (a Compute whose children's gas does
+                // not fit): an error of that op, not a refused charge
+                events.push(J::O(vec![("e", js("err")), ("pc", ji(clamp(*pc))), ("class", js("OutOfGasAtJoin"))]));
             }
             Outcome::Oog(pc) => {
                 let mut f = vec![("e", js("oog")), ("pc", ji(clamp(*pc)))];
@@ -522,6 +599,10 @@ pub fn emit_run(cfg: &RunCfg, out: &RunOut, label: &str) -> Emitted {
             }
             Outcome::Panic(msg) => {
                 events.push(J::O(vec![("e", js("panic")), ("msg", js(msg))]));
+            }
+            Outcome::Infeasible => {
+                events.push(J::O(vec![("e", js("trunc"))]));
+                truncated = true;
             }
         }
     }
